@@ -6,7 +6,10 @@ EXTENDS Integers, Sequences, TLC, Json
 VARIABLES l, bad
 \* "print": a policy of 6 to 9 leaves that has been used once (Satisfaction re-sorts its gates) is printed and parsed again: the two must
 \* answer alike on every sampled attribute set
-OkLine(r) == IF r.ev = "print" THEN r.panics = 0 /\ r.reparse_ok /\ r.agree
+\* (and the query changed nothing: the used policy equals an unused one parsed from the same text, and the policy parsed from its printed
+\* form equals it).  "reject": a policy followed by further tokens is not in the language and is refused.
+OkLine(r) == IF r.ev = "print" THEN r.panics = 0 /\ r.reparse_ok /\ r.agree /\ r.equal_kept /\ r.rt_equal
+             ELSE IF r.ev = "reject" THEN r.panics = 0 /\ ~r.accepted
              ELSE /\ r.panics = 0 /\ r.policy_ok /\ r.satisfies
                   /\ (r.encrypt_err \/ (r.could_decrypt /\ r.decrypt_ok))
 INSTANCE LinesTrace WITH Ok <- OkLine
